@@ -237,7 +237,7 @@ pub fn eval_seq(c: &SeqCase, obs: &mut Obs) -> Result<(), String> {
 fn eval_seq_inner(c: &SeqCase, _obs: &mut Obs) -> Result<usize, String> {
     let mut founds = 0;
     for (i, s) in c.searches.iter().enumerate() {
-        if s.len > 1 << 16 {
+        if s.len > 1 << 17 {
             return Err("malformed case".into());
         }
         let b = buffer(s);
@@ -316,6 +316,16 @@ pub fn enumerate(_: &Ctx) -> Box<dyn Iterator<Item = Case>> {
             }
         }
     }
+    // images larger than 32 KiB (the specification's limit for where a header may
+    // *start*; the statement has no limit on where it ends): a header in the first
+    // 8192 bytes whose stored length reaches the end of the buffer or stops short of it
+    for len in [32768usize, 32776, 40000, 70000] {
+        for pos in [0usize, 8, 8184] {
+            for l in [(len - pos) as u32, (len - pos - 8) as u32, 32768, 32776, (len - pos + 8) as u32] {
+                v.push(Case { len, key: (len + pos) as u64, plants: vec![(pos, l)], prefix: 0, decoys: vec![], full: vec![] });
+            }
+        }
+    }
     // complete valid headers (checksum, tags, end tag) whose stored length covers
     // 0..=3 further words behind the end tag
     for ntags in 0..4u8 {
@@ -351,7 +361,7 @@ pub fn enumerate(_: &Ctx) -> Box<dyn Iterator<Item = Case>> {
 
 pub fn strategy(_: &Ctx) -> BoxedStrategy<Case> {
     (
-        prop_oneof![2 => 0usize..200, 2 => 8100usize..8300, 3 => 0usize..16384],
+        prop_oneof![4 => 0usize..200, 4 => 8100usize..8300, 6 => 0usize..16384, 1 => 16384usize..80000],
         any::<u64>(),
         proptest::collection::vec((any::<u16>(), 0u8..8, any::<u32>(), 0u8..8), 0..=3),
         prop_oneof![3 => Just(0u8), 2 => 1u8..PREFIXES.len() as u8],
@@ -394,7 +404,7 @@ pub fn strategy(_: &Ctx) -> BoxedStrategy<Case> {
 pub fn subs() -> Vec<Box<dyn Sub>> {
     vec![Box::new(PropSub::<Case> {
         name: "find",
-        rule: "8-aligned buffers ending at a PROT_NONE page, marker background with accidental magics broken, 0..=3 planted magics, complete valid headers (checksum, tags, end tag, stored length covering further words behind the end tag), optionally starting with an ELF32/ELF64/PE/a.out file identification, optionally with look-alikes that are not the magic (the header in big-endian byte order, the boot-information and Multiboot 1 magics, partial magics). Enumerated: for each identification a header at every aligned position of the first 128 bytes; every length 0..=96 and 8150..=8230 x magic positions {0,1,4,8,16,24, len-16..len, 8192-16..8192+16} x stored length {0, 16, exactly to the end, end+1, 2^31, 2^32-1}; generated: lengths to 16 KiB, aligned/misaligned/straddling positions, random lengths. Oracle: first magic inside min(len,8192) bytes decides: none => Ok(None); misaligned or length word/body outside the buffer => some Err; else exactly buffer[i..i+L] and index i; panic or fault is a violation. Non-trivial = a magic is present or the buffer is shorter than 8192; distinct by buffer hash",
+        rule: "8-aligned buffers ending at a PROT_NONE page, marker background with accidental magics broken, 0..=3 planted magics, complete valid headers (checksum, tags, end tag, stored length covering further words behind the end tag), optionally starting with an ELF32/ELF64/PE/a.out file identification, optionally with look-alikes that are not the magic (the header in big-endian byte order, the boot-information and Multiboot 1 magics, partial magics). Enumerated: for each identification a header at every aligned position of the first 128 bytes; every length 0..=96 and 8150..=8230 x magic positions {0,1,4,8,16,24, len-16..len, 8192-16..8192+16} x stored length {0, 16, exactly to the end, end+1, 2^31, 2^32-1}; images of 32 KiB .. 70000 bytes with a header that reaches the end; generated: lengths to 80000, aligned/misaligned/straddling positions, random lengths. Oracle: first magic inside min(len,8192) bytes decides: none => Ok(None); misaligned or length word/body outside the buffer => some Err; else exactly buffer[i..i+L] and index i; panic or fault is a violation. Non-trivial = a magic is present or the buffer is shorter than 8192; distinct by buffer hash",
         profiles: Profiles::Both,
         quick: 5000,
         thorough: 200000,
